@@ -1024,7 +1024,7 @@ def cs_cfg(perms, maxlist, weak=(), tail='', consts=''):
 def charstack_gen(run):
     thorough = run.tier == 'thorough'
     for perms in (["pr", "pw", "ev"], ["pw"], ["pr"], ["pr", "ev"]):
-        run.model_check('CharStack', 'mc.cfg', workers=2, cfgtext=cs_cfg(perms, 3, tail='SPECIFICATION Spec\nINVARIANTS ReadsSeeLastWrite NoValueWithoutPr NoEventsWithoutEv ShapeRule\nPROPERTIES NoWriteWithoutPw'))
+        run.model_check('CharStack', 'mc.cfg', workers=2, cfgtext=cs_cfg(perms, 3, tail='SPECIFICATION Spec\nINVARIANTS ReadsSeeLastWrite NoValueWithoutPr NoEventsWithoutEv ShapeRule\nPROPERTIES NoWriteWithoutPw CallbackReached'))
     t = 'INIT GInit\nNEXT GNext\n'
     n = 4 if thorough else 3
     words = run.generate('CharStackGen', cfgtext=cs_cfg(["pr", "pw", "ev"], 1, consts='MaxLen = %d' % n, tail=t + 'INVARIANT EmitWord\nCONSTRAINT WordBound'), timeout=1200)
@@ -1041,7 +1041,7 @@ def charstack_gen(run):
     lists += [[dict(a='WriteList', tok='none', ids=list(c))] for k in range(1, (4 if thorough else 3) + 1) for c in itertools.product(wkinds, repeat=k)
               if list(c).count('w1') <= 1 and list(c).count('w2') <= 1]
     attacks = []
-    for perms, g in ((["pr"], "refused_write_reported"), (["pw"], "status_in_every_entry"), (["pr"], "write_needs_pw"), (["pr", "pw"], "subscribe_needs_ev"), (["pr", "pw"], "subscription_per_accessory_and_id")):
+    for perms, g in ((["pr", "pw"], "listener_panic_does_not_block_later_changes"), (["pr"], "ev_checked_whatever_the_write_did"), (["pr"], "refused_write_reported"), (["pw"], "status_in_every_entry"), (["pr"], "write_needs_pw"), (["pr", "pw"], "subscribe_needs_ev"), (["pr", "pw"], "subscription_per_accessory_and_id")):
         a = run.generate('CharStackGen', cfgtext=cs_cfg(perms, 2, weak=[g], tail=t + 'INVARIANT NoAttack\nVIEW AttackView'), expect_violation=True)
         if not a:
             raise ToolTrouble('no attack word for guard %s' % g)
